@@ -1884,6 +1884,13 @@ func scenCfgDiscard(x *Ctx) {
 		return
 	}
 	x.Writes(1, a, 2, time.Second)
+	var backlogWait func()
+	if bl := x.P.Int("backlog", 0); bl > 0 {
+		// committed entries that the (slow) state machines are still applying when the snapshot arrives later: the
+		// installation then has to wait for an operation in flight
+		backlogWait = x.WritesAsync(6, a, bl, 3*time.Second)
+		x.WaitFor(2*time.Second, func() bool { s := x.C.Node(a).Sample(); return s != nil && int(s.Commit) >= bl })
+	}
 	x.Step("isolate leader %s; it accepts AddServer(m1) (uncommitted)", a)
 	x.C.Net.Partition([]string{a}, x.others(a))
 	if !x.ensureNode("m1") {
@@ -1930,7 +1937,58 @@ func scenCfgDiscard(x *Ctx) {
 	}
 	x.NT("uncommitted-configuration-discarded-by-install")
 	x.C.Net.Heal()
+	if backlogWait != nil {
+		backlogWait()
+	}
 	x.finishDirected()
 }
 
 func init() { Registry["w2.cfgdiscard"] = scenCfgDiscard }
+
+// ---------------------------------------------------------------- C15: a follower whose acknowledgements were lost has snapshotted past the leader's next index for it
+
+// scenLostReplies: the follower receives, applies and snapshots everything, but none of its replies reaches the
+// leader, whose next index for it stays where it was. When the replies get through again the follower rejects the
+// leader's old position with a hint that points FORWARD (past its own snapshot); the leader must follow it.
+func scenLostReplies(x *Ctx) {
+	r := x.R
+	// in two of three runs the leader's application never asks for a snapshot: the leader keeps its whole log and has
+	// no snapshot to fall back on, the follower's snapshot is ahead of anything the leader could send
+	var noSnap sync.Map
+	x.C.Opts.FSM.NoSnap = func(id string) bool { _, ok := noSnap.Load(id); return ok }
+	_, l, ok := x.startStatic(3)
+	if !ok {
+		return
+	}
+	if r.Intn(3) > 0 {
+		noSnap.Store(l, true)
+		x.NT("leader-without-snapshots")
+	}
+	thr := x.C.Opts.FSM.SnapThreshold
+	if thr <= 0 {
+		x.Inconclusive("needs snapshots")
+		return
+	}
+	x.Writes(1, l, 2, time.Second)
+	f := pick(r, x.others(l))
+	rule := x.C.Net.AddRule(&simnet.Rule{Name: "lose-replies-of-f", Drop: true, Match: func(m *mon.Msg, reply bool) bool {
+		return reply && m.From == l && m.To == f
+	}})
+	x.Step("replies of %s to leader %s are lost; %s keeps receiving, applying and snapshotting", f, l, f)
+	x.Writes(2, l, 3*thr+2+r.Intn(4), time.Second)
+	if !x.WaitFor(3*time.Second, func() bool { s := x.C.Node(f).Sample(); return s != nil && s.LII > 2 }) {
+		x.Inconclusive("%s took no snapshot", f)
+		return
+	}
+	if cur := x.C.Leader(); cur != l {
+		x.Inconclusive("leader changed")
+		return
+	}
+	x.Step("replies get through again")
+	x.C.Net.RemoveRule(rule)
+	x.NT("follower-snapshot-ahead-of-next-index")
+	x.Writes(3, l, 2, time.Second)
+	x.finishDirected()
+}
+
+func init() { Registry["w2.lostreplies"] = scenLostReplies }
